@@ -534,6 +534,10 @@ func vnUDP6(src, dst netip.Addr, sport, dport uint16, extra int) (pkt []byte, id
 
 // vnPayloadID extracts the unique id of a tun packet built by vnUDP4 (ok=false if not one of ours).
 func vnPayloadID(pkt []byte) (id [16]byte, ok bool) {
+	if len(pkt) >= 64 && pkt[0]>>4 == 6 && pkt[6] == 17 {
+		copy(id[:], pkt[48:64])
+		return id, string(id[:8]) == "VERIFID!"
+	}
 	if len(pkt) < 44 || pkt[0]>>4 != 4 {
 		return id, false
 	}
